@@ -595,7 +595,7 @@ func (m *ssModelCmp) close() {
 		r.Fail(lib.Failure{Kind: "tie", Key: "c11/model-driver", What: m.err.Error()})
 	}
 	for k, n := range m.hist {
-		r.Histogram[k] += n
+		r.HistAdd(k, n)
 	}
 	for _, f := range m.fails {
 		r.Fail(f)
